@@ -72,6 +72,44 @@ def template(t, cls, idset, ins, **sel):
     return _roundtrip(spec, IDSETS[idset], ins, bond_orders=(name == "dbond"))
 
 
+WHOLE = ["F/C=C/S(=O)(=O)Cl", "C/C=C/P(=O)(C)C", "C/C=C\\C", "C[C@H](F)/C=C/Cl", "F/C=C\\CS(=O)(=O)C", "C[C@@H](Cl)S(=O)(=O)/C=C/F", "C/C=C/CC=O",
+         "C[C@H](O)[C@@H](F)Cl", "F/C=C/C[S@](=O)C", "C/C(F)=C(/Cl)C"]
+
+
+def _spec_of(g):
+    s = gl.snap(g)
+    sp = gl.empty_spec("SMG")
+    sp["atoms"] = [(a, d["atom_type"], {}) for a, d in s["atoms"].items()]
+    sp["bonds"] = [(a, b, None, {}) for (a, b) in s["bonds"]]
+    sp["astereo"] = list(s["astereo"].values())
+    sp["bstereo"] = list(s["bstereo"].values())
+    return sp
+
+
+def whole(m, ins, first):
+    """whole molecules (isolated C=C next to sulfonyl / phosphoryl / carbonyl groups, one or two tetrahedral centres) taken from RDKit, rebuilt with a seeded
+    atom / bond insertion order (and optionally the heteroatom-rich end first), exported with generated bond orders and imported again"""
+    from rdkit import Chem
+    from stereomolgraph import StereoMolGraph
+    mol = Chem.AddHs(Chem.MolFromSmiles(WHOLE[m]))
+    g0 = StereoMolGraph.from_rdmol(mol, stereo_complete=False)
+    double = {frozenset((b.GetBeginAtomIdx(), b.GetEndAtomIdx())) for b in mol.GetBonds()
+              if b.GetBondType() == Chem.BondType.DOUBLE and b.GetBeginAtom().GetSymbol() == "C" and b.GetEndAtom().GetSymbol() == "C"}
+    for b in list(g0.bond_stereo):
+        if frozenset(b) not in double:
+            g0.delete_bond_stereo(b)      # the property speaks about E/Z of isolated double bonds only
+    sp = _spec_of(g0)
+    if first:
+        heavy = {a.GetIdx(): a.GetAtomicNum() for a in mol.GetAtoms()}
+        order = sorted(heavy, key=lambda i: (-heavy[i], i))
+        sp["atoms"] = sorted(sp["atoms"], key=lambda t: order.index(t[0]))
+        sp["bonds"] = sorted(sp["bonds"], key=lambda t: min(order.index(t[0]), order.index(t[1])))
+    if len(sp["bstereo"]) + len(sp["astereo"]) == 0:
+        return f"harness error: no stereo unit imported for {WHOLE[m]}"
+    msg = _roundtrip(sp, None, ins, bond_orders=True)
+    return f"{WHOLE[m]}: {msg}" if msg else None
+
+
 COMPLEX_IDSETS = [None, {0: 11, 1: 5, 2: 40, 3: 1, 4: 999, 5: 2, 6: 77, 7: 8, 8: 3, 9: 120, 10: 7, 11: 64, 12: 13, 13: 21}]
 COMPLEX_KINDS = ["Oct+Tet", "Oct+Oct", "TBP+Tet", "SP+Tet", "Oct+TBP"]
 
@@ -111,6 +149,8 @@ def plan(tier, seed):
                      params={"kind": (0, len(COMPLEX_KINDS)), "oc": (0, 6 if tier == "quick" else 24), "pc": (0, 2), "pl": (0, 2), "idset": (0, 2),
                              "ins": (0, 6 if tier == "quick" else 16)},
                      pre=["pc == 0 or kind != 3"], shard_by=[], timeout=1500, nontrivial="ins > 0", min_shard=16))
+    units.append(Sel(name="whole_molecules", func="vp.props.C13:whole", params={"m": (0, len(WHOLE)), "ins": (0, 8 if tier == "quick" else 40), "first": "bool"},
+                     pre=[], shard_by=[], timeout=1500, nontrivial="ins > 0", min_shard=16))
     names = ["star4", "lonepair", "dbond", "star5", "star6"]
     for (n, c, p, pr) in eqfam.template_units(names, classes=("SMG",)):
         params = {"t": (C01.TNAMES.index(n), C01.TNAMES.index(n) + 1), "cls": (1, 2), "idset": (0, 2), "ins": (0, 3 if tier == "quick" else 6)}
